@@ -636,6 +636,28 @@ let run_case (fn : string) : unit =
       pr_list pr_sval n.n_keys;
       pr_list pr_cval_row n.n_vals;
       pr_list (function None -> pr "-" | Some b -> pr_bytes b) n.n_links
+  | "crypto" ->
+      (* the primitives' results come with the case; a primitive called with other arguments than
+         the ones the table was made for answers with a value that cannot match *)
+      (match next () with
+       | "enc" ->
+           let key = rd_bytes () in let msg = rd_bytes () in let dig = rd_bytes () in let sealed = rd_bytes () in
+           let n24 = Stdlib.List.filteri (fun i _ -> i < 24) dig in
+           let nonce_of x = if x = msg @ key then dig else [] in
+           let seal k n m = if k = key && n = n24 && m = msg then sealed else [] in
+           pr "ok"; pr_bytes (encrypt nonce_of seal key msg)
+       | "dec" ->
+           let _kind = next () in let _msg = rd_bytes () in
+           let key = rd_bytes () in let c = rd_bytes () in
+           let on = rd_opt rd_bytes in let oo = rd_opt rd_bytes in
+           let n24 = Stdlib.List.filteri (fun i _ -> i < 24) c in
+           let box = Stdlib.List.filteri (fun i _ -> i >= 24) c in
+           let open_new k n b = if k = key && n = n24 && b = box then on else Some [z_of_small 255] in
+           let open_old k n b = if k = key && n = n24 && b = box then oo else Some [z_of_small 254] in
+           (match decrypt open_new open_old key c with
+            | Some m -> pr "ok"; pr_bytes m
+            | None -> pr "err")
+       | s -> failwith ("bad_crypto_op_" ^ s))
   | "lww" ->
       (* payload is an opaque integer id for the kv layer *)
       let a = rd_cval rd_z in let b = rd_cval rd_z in
